@@ -118,7 +118,9 @@ type insertionPointReplacer struct {
 	m map[string]string
 }
 
-var insertReg = regexp.MustCompile(fmt.Sprintf(plugin.InsertionPointFormat, `\([$.0-9a-zA-Z_]*\)`))
+// the name of an insertion point is chosen by whoever writes the marker
+// (plugin.InsertionPoint): anything between the parentheses is a name.
+var insertReg = regexp.MustCompile(fmt.Sprintf(plugin.InsertionPointFormat, `\([^()]*\)`))
 
 func newInsertionPointReplacer(content string) *insertionPointReplacer {
 	kk := insertReg.FindAllString(content, -1) // all insertion points
